@@ -49,6 +49,12 @@ def corpus_games():
         g = dict(rewards=[1, 0, 0, 0, 0], players=[PR] * n, transition_list=tl, final_states=[3])
         fr = [[Fr(p).limit_denominator(8) for p, _ in row]] + [[Fr(1)]] * 4
         out.append((g, dict(fr=fr, style="corpus")))
+    # the initial state is itself final: absorbing, and with outgoing transitions
+    out.append((dict(rewards=[0, 0], players=[PR, PR], transition_list=[[(1, 0)], [(1, 1)]], final_states=[0]),
+                dict(fr=[[Fr(1)], [Fr(1)]], style="corpus")))
+    out.append((dict(rewards=[0, 0, 0], players=[P1, PR, PR],
+                     transition_list=[[("a", 1), ("b", 2)], [(1, 1)], [(1, 2)]], final_states=[0, 1]),
+                dict(fr=[None, [Fr(1)], [Fr(1)]], style="cyclic")))
     # Player 1 with two adjacent dead successors
     g = dict(rewards=[1, 0, 0, 0, 0], players=[P1, PR, PR, PR, PR],
              transition_list=[[("a", 1), ("b", 2), ("c", 3)], [(1, 1)], [(1, 2)], [(1, 3)], [(1, 4)]], final_states=[3])
@@ -93,6 +99,9 @@ def correspondence(ctx, recs, cmp_name, tag, chunk=120):
                 continue
             if "timeout" in r.res:
                 ctx.count("impl-timeout (not sent to the model)")
+                continue
+            if r.ok and max(r.out[4], r.out[5]) > 4000 if op == "solve" else (r.ok and r.out[2] > 4000):
+                ctx.count("more than 4000 sweeps (not sent to the model)")
                 continue
             try:
                 if op == "solve":
